@@ -12,7 +12,7 @@ PROPS = {}
 
 PROPS["C05"] = {
     "level": "proof",
-    "technique": "Verus contracts on the extracted WAL reader (equals a recursive reference parser for all byte strings, with termination) + torn-tail lemmas; Kani complete harnesses for the header codec",
+    "technique": "Verus contracts on the extracted WAL reader (equals a recursive reference parser for all byte strings, with termination) + torn-tail lemmas; Kani complete harnesses for the header codec; encode_record_batch (what is written to the log decodes to the batch that was appended: the arrow IPC round trip is assumed only for a writer that assigns one dictionary id per column, and the unit must establish that configuration: F82)",
     "verus": ["c05_wal_reader.rs.in"],
     "kani": ["c05_header"],
     "explanation": "",
@@ -53,7 +53,7 @@ PROPS["C12"] = {
 
 PROPS["C07"] = {
     "level": "proof",
-    "technique": "Verus contracts on the extracted registration / deletion / lookup code of both metadata backends: bucket-index representation invariant preserved by every transformer, lookup result equals the property's answer set (cover lemma over monotone hour buckets), with map / sort / retain combinators as assumed shims",
+    "technique": "Verus contracts on the extracted registration / deletion / lookup code of both metadata backends: bucket-index representation invariant preserved by every transformer, lookup result equals the property's answer set (cover lemma over monotone hour buckets), with map / sort / retain combinators as assumed shims; in-memory backend: register_chunk and delete_chunk update chunk map, index and level inside one scope of the index lock (guard directive; F75), complete_compaction refuses a target that is one of its sources (F76)",
     "verus": ["c07_local.rs.in", "c07_s3.rs.in"],
     "explanation": "",
     "assumptions": [
@@ -152,7 +152,7 @@ PROPS["C02"] = {
 
 PROPS["C17"] = {
     "level": "other",
-    "technique": "Verus contract on the row-building loop of convert_prom_to_arrow (one row per sample of every series in order; every column one cell per row; each row carries its own series' metric name, its sample's timestamp in ns and its series' label values, None where the series lacks the label), over the Kani-decided value routing and ms->ns scaling of the same text; Verus functional contract on the extracted OTLP export_request_to_data_points (eight nested loops: the output is, in request order, exactly one point per data point of the request, each with its own timestamp, metric name and the resource attributes of its own ResourceMetrics entry merged with its own), on number_point_to_metric_point and on data_points_to_arrow (one row per point; fixed columns carry timestamp / name / value; exactly one column per label key occurring in any point, cell = the point's value for the key or NULL); Verus typestate contract on handle_remote_write (204 only after exactly the converted batch was written once; undecodable bodies are answered 400 and write nothing); Verus totality + termination + completeness contracts on the extracted protobuf reader (read_varint, parse_sample, parse_label, parse_timeseries, parse_write_request: every index, slice bound and addition proved safe for all byte strings, position strictly increasing; a varint is refused only if truncated or longer than ten bytes); Kani complete harnesses for the checked end computation, the value routing over all f64 bit patterns, the ms->ns conversion and the OTLP number value (exact for doubles and integers up to 2^53); bounded harness for the varint value; the entry of Ingester::write and compute_shard_id (row-0 reads of the key columns are in bounds for every batch with a row, and write answers a batch without rows before reading any: F65)",
+    "technique": "Verus contract on the row-building loop of convert_prom_to_arrow (one row per sample of every series in order; every column one cell per row; each row carries its own series' metric name, its sample's timestamp in ns and its series' label values, None where the series lacks the label), over the Kani-decided value routing and ms->ns scaling of the same text; Verus functional contract on the extracted OTLP export_request_to_data_points (eight nested loops: the output is, in request order, exactly one point per data point of the request, each with its own timestamp, metric name and the resource attributes of its own ResourceMetrics entry merged with its own), on number_point_to_metric_point and on data_points_to_arrow (one row per point; fixed columns carry timestamp / name / value; exactly one column per label key occurring in any point, cell = the point's value for the key or NULL); Verus typestate contract on handle_remote_write (204 only after exactly the converted batch was written once; undecodable bodies are answered 400 and write nothing); Verus totality + termination + completeness contracts on the extracted protobuf reader (read_varint, parse_sample, parse_label, parse_timeseries, parse_write_request: every index, slice bound and addition proved safe for all byte strings, position strictly increasing; a varint is refused only if truncated or longer than ten bytes); Kani complete harnesses for the checked end computation, the value routing over all f64 bit patterns, the ms->ns conversion and the OTLP number value (exact for doubles and integers up to 2^53); bounded harness for the varint value; the entry of Ingester::write and compute_shard_id (row-0 reads of the key columns are in bounds for every batch with a row, and write answers a batch without rows before reading any: F65); both converters refuse a label named like a fixed column (no label column carries a fixed column's name: F84) and the remote-write handler answers a body that parses but does not convert with 400; the Flight decode region contains the decoder's panics (F85)",
     "verus": ["c17_parsers.rs.in", "c17_otlp.rs.in", "c17_prom_rows.rs.in", "c17_handler.rs.in"],
     "kani": ["c17_ingest"],
     "explanation": "Parser totality and termination are proved unbounded by Verus on the extracted text; end computation, value routing (all f64 bit patterns) and ms->ns conversion are complete Kani proofs; the varint value formula is checked by a bounded Kani harness (16-byte window). Values are opaque in the Verus units (f64 conversions are decided by the Kani units); snappy / prost / Flight decoding and FlightIngestService::process_stream are not under contract; known finding F28 (OTLP integers beyond 2^53). Hence level other.",
